@@ -1156,7 +1156,7 @@ step_exec() (
 
 	{
 		"${ROBSDEXEC}" -m "${_MODE}" ${ROBSDCONF:+"-C${ROBSDCONF}"} \
-			${_trace:+-x} "${_step}" || echo "$?" >"${_fail}"
+			${_trace:+-x} -- "${_step}" || echo "$?" >"${_fail}"
 
 		if [ "${_MODE}" = "robsd-regress" ]; then
 			# Regress tests can fail but still exit zero, check the
